@@ -5,7 +5,7 @@
 From FMP Require Import Base.Bytes Base.Lts Model.Events Model.Skeleton Model.Props Model.Receiver Model.Writer
      Proofs.ReceiverProofs Proofs.WriterProofs Proofs.SkeletonProofs.
 From FMP Require Import Model.CodecCfg Proofs.CodecCfgProofs.
-From FMP Require Import Model.Paths Proofs.PathProofs.
+From FMP Require Import Model.Paths Proofs.PathsC11.
 From FMP Require Import Proofs.ReceiverQuiesce.
 Open Scope Z_scope.
 
